@@ -9,12 +9,12 @@ import (
 	"path/filepath"
 	"strings"
 	"sync/atomic"
+	"verif/h/own"
 
 	"github.com/biogo/biogo/align/pals/filter"
 	"github.com/biogo/biogo/alphabet"
 	"github.com/biogo/biogo/index/kmerindex"
 	"github.com/biogo/biogo/morass"
-	"github.com/biogo/biogo/seq/linear"
 	"verif/h/enum"
 )
 
@@ -61,7 +61,7 @@ func (r *runner) close() { r.m.CleanUp(); r.bad.CleanUp() }
 
 // hits runs the real filter and returns what it pushed.
 func (r *runner) hits(k kase) ([]filter.Hit, error) {
-	t := linear.NewSeq("t", alphabet.BytesToLetters([]byte(k.Target)), alphabet.DNA)
+	t := own.NewSeq("t", alphabet.BytesToLetters([]byte(k.Target)), alphabet.DNA)
 	ki, err := kmerindex.New(k.K, t)
 	if err != nil {
 		return nil, err
@@ -79,16 +79,16 @@ func (r *runner) hits(k kase) ([]filter.Hit, error) {
 	}
 	q := t
 	if !k.Self {
-		q = linear.NewSeq("q", alphabet.BytesToLetters([]byte(k.Query)), alphabet.DNA)
+		q = own.NewSeq("q", alphabet.BytesToLetters([]byte(k.Query)), alphabet.DNA)
 	}
 	f := filter.New(ki, &filter.Params{WordSize: k.K, MinMatch: k.N, MaxError: k.E, TubeOffset: k.Off})
 	for _, b := range k.Before {
 		if k.BeforeFails {
-			f.Filter(linear.NewSeq("b", alphabet.BytesToLetters([]byte(b)), alphabet.DNA), false, false, r.bad)
+			f.Filter(own.NewSeq("b", alphabet.BytesToLetters([]byte(b)), alphabet.DNA), false, false, r.bad)
 			continue
 		}
 		r.m.Clear()
-		if err := f.Filter(linear.NewSeq("b", alphabet.BytesToLetters([]byte(b)), alphabet.DNA), false, false, r.m); err != nil {
+		if err := f.Filter(own.NewSeq("b", alphabet.BytesToLetters([]byte(b)), alphabet.DNA), false, false, r.m); err != nil {
 			return nil, err
 		}
 		if err := r.m.Finalise(); err != nil {
